@@ -1,7 +1,7 @@
 (* Correspondence runner for C08.  The round-trip law is judged directly on what the
    implementation returned: 0 ok, 1 impl <> model, 2 the law is violated. *)
 From Coq Require Import List NArith Bool String.
-From GQL Require Import Base.Bytes Syntax.Lexer Syntax.Ast Syntax.Parser Syntax.Printer Proofs.SyntaxComplete.
+From GQL Require Import Base.Bytes Syntax.Lexer Syntax.Ast Syntax.Parser Syntax.Printer Proofs.SyntaxComplete Proofs.SyntaxRender.
 From GQL Require Export Run.C03run.
 Import ListNotations.
 Open Scope N_scope.
@@ -53,7 +53,10 @@ Definition check (c : c08case) : N :=
               | Ok (d0, _) =>
                 if negb (exec_only d0) then 0
                 else if negb (gt_eqb false (g_doc d0) o) then 1
-                else if bytes_eqb (print_doc d0) (unhex printed) then 0 else 1
+                else if negb (bytes_eqb (print_doc d0) (unhex printed)) then 1
+                (* the hypothesis of C08_lex_layout holds for this document's layout, unless a string
+                   has multi-byte content (not covered by the theorem) *)
+                else if layout_wfb (lay_doc d0) || negb (forallb (forallb (fun c => c <? 128)) (strings_of o)) then 0 else 1
               | _ => 1
               end
           | _ => 1
